@@ -105,7 +105,13 @@ func c07random(rng *core.Rng, pfx string, maxLen int) []xMsg {
 			if rng.Intn(5) == 0 {
 				q += " /* " + strings.Repeat("large query text ", 250+rng.Intn(300)) + "*/" // a Parse of 4-9 KiB
 			}
-			pm := xMsg{K: "parse", Name: name, Query: q, Prog: xProg(id, 3+rng.Intn(2)+10*rng.Intn(2))}
+			kind := 3 + rng.Intn(2) + 10*rng.Intn(2)
+			if rng.Intn(5) == 0 {
+				// a statement that fails (before or after its first row) whenever it is executed: its portals
+				// stay what their Binds made them
+				kind = 5 + rng.Intn(4)
+			}
+			pm := xMsg{K: "parse", Name: name, Query: q, Prog: xProg(id, kind)}
 			if rng.Intn(4) == 0 {
 				// the very text of an earlier (successful) Parse again, under the same or another name
 				var prev []xMsg
